@@ -104,8 +104,41 @@ def case_of_table(rows, objects=None, properties=None, **extra):
 
 
 def context_of_case(case):
-    return concepts.Context(tuple(case['objects']), tuple(case['properties']),
-                            [tuple(r) for r in case['rows']])
+    """The context of a table case.  With `siblings` (other tables over the SAME labels) the sibling contexts are
+    created *after* the main one and kept alive with it: results for one context must not depend on which other
+    contexts exist in the process (shared-state regressions need two live contexts to manifest)."""
+    ctx = concepts.Context(tuple(case['objects']), tuple(case['properties']),
+                           [tuple(r) for r in case['rows']])
+    sibs = []
+    for rows in case.get('siblings', ()):
+        sib = concepts.Context(tuple(case['objects']), tuple(case['properties']), [tuple(r) for r in rows])
+        if case.get('siblings_use', True):
+            sib.intension(case['objects'][:1])
+            sib.extension(case['properties'][:1])
+            sib[case['objects'][:1]]
+            list(sib.lattice)
+            for a in sib.lattice:
+                for b in sib.lattice:
+                    a | b, a & b
+        sibs.append(sib)
+    if sibs:
+        _KEEPALIVE.append((ctx, sibs))
+        del _KEEPALIVE[:-4]
+    return ctx
+
+
+_KEEPALIVE = []
+
+
+def sibling_cases(rng, count):
+    """Cases with sibling contexts over the same labels: the complement table, the transposed-pattern table of
+    the same shape, a random table."""
+    for _ in range(count):
+        n, m = rng.randint(2, 4), rng.randint(2, 4)
+        rows = random_table(rng, n, m)
+        sibs = [[[not v for v in r] for r in rows], [list(r) for r in random_table(rng, n, m)],
+                [[(i + j) % 2 == 0 for j in range(m)] for i in range(n)]]
+        yield case_of_table(rows, family='siblings', siblings=sibs)
 
 
 def standard_cases(tier, rng, quick_dim=3, thorough_cells=12, random_quick=40, random_thorough=400,
@@ -115,6 +148,15 @@ def standard_cases(tier, rng, quick_dim=3, thorough_cells=12, random_quick=40, r
     if tier == 'quick':
         for rows in tables_upto(quick_dim, quick_dim):
             yield case_of_table(rows)
+        if quick_dim >= 3:
+            # four objects are the smallest size at which equal-sized incomparable covers with nested generators occur
+            for rows in all_tables(4, 2):
+                yield case_of_table(rows)
+            for _ in range(150):
+                yield case_of_table(random_table(rng, 4, 3, 0.5), family='random4x3')
+            for _ in range(60):
+                yield case_of_table(random_table(rng, rng.randint(4, 5), 4, 0.5), family='random5x4')
+        yield from sibling_cases(rng, 12)
         if structured:
             for name, rows in structured_tables(4):
                 yield case_of_table(rows, family=name)
@@ -127,6 +169,7 @@ def standard_cases(tier, rng, quick_dim=3, thorough_cells=12, random_quick=40, r
     else:
         for rows in tables_cells(thorough_cells):
             yield case_of_table(rows)
+        yield from sibling_cases(rng, 200)
         if structured:
             for name, rows in structured_tables(6):
                 yield case_of_table(rows, family=name)
